@@ -774,20 +774,73 @@ theorem jacobi_odd (n k : Nat) (hk : k % 2 = 1) : Spec.jacobi n k = some (Spec.j
 -- ---------------------------------------------------------------------------------------------
 -- inline form = command form
 
-/-- every row of the tf table that `do_exec` knows (under the name recorded in the row) runs the same `do_*` method
-    in both forms: evaluating `name(arg)` and printing the value writes what the command writes.  (`hex` is shown bare by
-    the command and as a quoted string by the inline form; `echo` and `int` agree.) -/
+/-- how the wrapper `_e_name` of a table row shows the value it computed: `_e_hex` prints the characters bare
+    (`printf("%s\n", pv.hex_str())`) where the inline `hex(arg)` yields a string value (shown quoted by `println`);
+    every other row ends in `pv.println()` -/
+def showAs (name : String) (v' : Model.Value) : Model.TM Unit :=
+  if name = "hex" then Model.sayOut (v'.str ++ [10]) else v'.println
+
+/-- every row of the tf table has a `DO(...)` name in `do_exec` (none is left without inline form) -/
+theorem exec_total : ∀ e ∈ Model.tfTable, e.exec.isSome = true := by decide
+
+private theorem rows {P : Model.TfEntry → Prop} (e : Model.TfEntry) (he : e ∈ Model.tfTable)
+    (h : ∀ e' ∈ Model.tfTable, P e') : P e := h e he
+
+/-- EVERY row of the tf table, without exception, has an inline form `nm(arg)` (`e.exec = some nm`, `do_exec` accepts `nm`)
+    that runs the same `do_*` method as the command: evaluating it and showing the value the way the row's wrapper does
+    writes what the command writes, and fails where the command fails -/
 theorem inline_eq_command (cx : Model.VCtx) (v : Model.Value) :
-    ∀ e ∈ Model.tfTable, e.name ≠ "hex" → ∀ nm, e.exec = some nm →
-      ∃ f, v.doExecName cx nm = some f ∧ (do let v' ← f; v'.println : Model.TM Unit) = e.run cx v := by
-  intro e he hhex nm hnm
+    ∀ e ∈ Model.tfTable, ∃ nm f, e.exec = some nm ∧ v.doExecName cx nm = some f ∧
+      (do let v' ← f; showAs e.name v' : Model.TM Unit) = e.run cx v := by
+  intro e he
   simp only [Model.tfTable, List.mem_cons, List.not_mem_nil, or_false] at he
   rcases he with rfl | rfl | rfl | rfl | rfl | rfl | rfl | rfl | rfl | rfl | rfl | rfl | rfl | rfl | rfl | rfl | rfl | rfl | rfl | rfl | rfl | rfl | rfl | rfl | rfl | rfl | rfl <;>
-    simp only [Option.some.injEq, reduceCtorEq] at hnm <;> (try subst hnm) <;>
+    refine ⟨_, _, rfl, (by first | (simp [Model.Value.doExecName]; done) | (simp [Model.Value.doExecName]; rfl)), ?_⟩ <;>
     first
-      | exact absurd rfl hhex
-      | exact ⟨_, by simp [Model.Value.doExecName], rfl⟩
-      | (refine ⟨_, by simp [Model.Value.doExecName]; rfl, ?_⟩; simp [Model.Value.println, Model.intValueM, Model.Value.printBytes])
+      | rfl
+      | (simp [showAs, Model.Value.println, Model.intValueM, Model.Value.printBytes]; done)
+
+/-- every row but `hex` ends in `println` in both forms: the inline form prints exactly the bytes the command prints -/
+theorem inline_eq_command_println (cx : Model.VCtx) (v : Model.Value) :
+    ∀ e ∈ Model.tfTable, e.name ≠ "hex" → ∃ nm f, e.exec = some nm ∧ v.doExecName cx nm = some f ∧
+      (do let v' ← f; v'.println : Model.TM Unit) = e.run cx v := by
+  intro e he hhex
+  obtain ⟨nm, f, h1, h2, h3⟩ := inline_eq_command cx v e he
+  refine ⟨nm, f, h1, h2, ?_⟩
+  rw [← h3]; simp [showAs, hhex]
+
+/-- every inline name that `tf -h` prints (`e.inl`: b32d, b32e, b32me, b58cd, b58ce, jacobi_sym, len, verify_sig_compact and
+    the names that coincide with the `DO(...)` name) is accepted by `do_exec` and runs the same function as the row's
+    `DO(...)` name -/
+theorem inline_advertised (cx : Model.VCtx) (v : Model.Value) :
+    ∀ e ∈ Model.tfTable, ∃ nm f, e.exec = some nm ∧ v.doExecName cx nm = some f ∧ v.doExecName cx e.inl = some f := by
+  intro e he
+  simp only [Model.tfTable, List.mem_cons, List.not_mem_nil, or_false] at he
+  rcases he with rfl | rfl | rfl | rfl | rfl | rfl | rfl | rfl | rfl | rfl | rfl | rfl | rfl | rfl | rfl | rfl | rfl | rfl | rfl | rfl | rfl | rfl | rfl | rfl | rfl | rfl | rfl <;>
+    exact ⟨_, _, rfl, by first | (simp [Model.Value.doExecName]; done) | (simp [Model.Value.doExecName]; rfl),
+      by first | (simp [Model.Value.doExecName]; done) | (simp [Model.Value.doExecName]; rfl)⟩
+
+/-- hence the printed inline name yields what the command yields, for every row -/
+theorem inline_advertised_eq_command (cx : Model.VCtx) (v : Model.Value) :
+    ∀ e ∈ Model.tfTable, ∃ f, v.doExecName cx e.inl = some f ∧
+      (do let v' ← f; showAs e.name v' : Model.TM Unit) = e.run cx v := by
+  intro e he
+  obtain ⟨nm, f, h1, h2, h3⟩ := inline_eq_command cx v e he
+  obtain ⟨nm', f', h1', h2', h3'⟩ := inline_advertised cx v e he
+  rw [h1] at h1'; cases h1'
+  rw [h2] at h2'; cases h2'
+  exact ⟨f, h3', h3⟩
+
+/-- both names of a row, in one statement: whichever of the two the text uses -/
+theorem inline_either (cx : Model.VCtx) (v : Model.Value) (name : String) :
+    ∀ e ∈ Model.tfTable, e.exec = some name ∨ e.inl = name → ∃ f, v.doExecName cx name = some f ∧
+      (do let v' ← f; showAs e.name v' : Model.TM Unit) = e.run cx v := by
+  intro e he h
+  rcases h with h | h
+  · obtain ⟨nm, f, h1, h2, h3⟩ := inline_eq_command cx v e he
+    rw [h] at h1; cases h1
+    exact ⟨f, h2, h3⟩
+  · subst h; exact inline_advertised_eq_command cx v e he
 
 /-- text level: the `Value` constructor on the text `name(arg)` parses `arg`, assigns the result into the value under
     construction (`operator=` copies the type and the active field only) and runs `do_exec(name)` on it -/
@@ -803,23 +856,23 @@ theorem inline_text (cx : Model.VCtx) (mk : Bytes → Nat → Model.TM Model.Val
         pure (Model.classifyPlainF this (nm ++ [40] ++ arg ++ [41]) (nm.length + arg.length + 2))) :=
   InlineText.inline_text cx mk nm arg hlen hnm hpos
 
-/-- text level, command side: evaluating the text `name(arg)` and printing the value writes what the wrapper `_e_name` of
-    the table row writes for the assigned inner value.  (`fn_tf` runs the wrapper on the inner value itself; the two differ
-    only in the fields `operator=` does not copy — see the report: a string argument that starts with hex digits keeps
-    `TryHex`'s partial bytes in `data`, which scriptpubkey-to-addr / pubkey-to-xpubkey / the several-operand transforms read.) -/
+/-- text level, command side: evaluating the text `name(arg)` — `name` being the `DO(...)` name of a table row or the
+    inline name `tf -h` prints for it — and showing the value writes what the wrapper `_e_name` of the row writes for the
+    assigned inner value, for EVERY row.  (`fn_tf` runs the wrapper on the inner value itself; the two differ only in the
+    fields `operator=` does not copy; since bca0002 a failed `TryHex` clears `data`, so a string argument carries no stale bytes.) -/
 theorem inline_text_eq_wrapper (cx : Model.VCtx) (mk : Bytes → Nat → Model.TM Model.Value) (nm arg : Bytes) (hlen : nm.length ≤ 29)
     (hnm : ∀ c ∈ nm, c.toNat ≠ 40 ∧ c.toNat ≠ 0) (hpos : nm.length + arg.length > 1) :
-    ∀ e ∈ Model.tfTable, e.name ≠ "hex" → e.exec = some (Model.strOfBytes nm) →
-      (do let v ← Model.valueBodyF cx mk (nm ++ [40] ++ arg ++ [41]) (nm.length + arg.length + 2); v.println : Model.TM Unit) =
+    ∀ e ∈ Model.tfTable, e.exec = some (Model.strOfBytes nm) ∨ e.inl = Model.strOfBytes nm →
+      (do let v ← Model.valueBodyF cx mk (nm ++ [40] ++ arg ++ [41]) (nm.length + arg.length + 2); showAs e.name v : Model.TM Unit) =
       (do let inner ← mk arg arg.length
           e.run cx (({ type := .T_STRING, str := nm ++ [40] ++ arg ++ [41] } : Model.Value).assign inner)) := by
-  intro e he hhex hex
+  intro e he hex
   rw [inline_text cx mk nm arg hlen hnm hpos]
   simp only [bind_assoc]
   congr 1
   funext inner
-  obtain ⟨f, h1, h2⟩ := inline_eq_command cx (({ type := .T_STRING, str := nm ++ [40] ++ arg ++ [41] } : Model.Value).assign inner)
-    e he hhex _ hex
+  obtain ⟨f, h1, h2⟩ := inline_either cx (({ type := .T_STRING, str := nm ++ [40] ++ arg ++ [41] } : Model.Value).assign inner)
+    _ e he hex
   simp only [Model.Value.doExecF, h1]
   exact h2
 
@@ -838,7 +891,7 @@ theorem doExec_agrees (cx : VCtx) (v : Value) (fn : Bytes) (name : String) (hfn 
        | .error e, .error e' => e = e'
        | _, _ => False) := by
   simp only [knownInline, List.mem_cons, List.not_mem_nil, or_false] at hk
-  rcases hk with rfl | rfl | rfl | rfl | rfl | rfl | rfl | rfl | rfl
+  rcases hk with rfl | rfl | rfl | rfl | rfl | rfl | rfl | rfl | rfl | rfl
   all_goals simp [Value.doExec, hfn, Value.doExecName]
   all_goals
     cases v with
@@ -851,12 +904,27 @@ theorem doExec_agrees (cx : VCtx) (v : Value) (fn : Bytes) (name : String) (hfn 
            try (cases dataIntValue data <;> simp))
 end
 
-/-- the rows without inline form: `do_exec` does not know the names the table advertises for them -/
-theorem inline_missing (cx : Model.VCtx) (v : Model.Value) :
-    v.doExecName cx "len" = none ∧ v.doExecName cx "b32me" = none ∧ v.doExecName cx "bech32menc" = none ∧
-    v.doExecName cx "verify_sig_compact" = none ∧ v.doExecName cx "b32d" = none ∧ v.doExecName cx "b32e" = none ∧
-    v.doExecName cx "b58cd" = none ∧ v.doExecName cx "b58ce" = none ∧ v.doExecName cx "jacobi_sym" = none := by
+/-- the names that used to be refused (F-C14-inline-missing, repaired by 7582c10) are accepted, and run the method the
+    command of the row runs -/
+theorem inline_formerly_missing (cx : Model.VCtx) (v : Model.Value) :
+    v.doExecName cx "len" = some (Model.doLen v) ∧
+    v.doExecName cx "b32me" = some (Model.doBech32Enc .BECH32M v) ∧ v.doExecName cx "bech32menc" = some (Model.doBech32Enc .BECH32M v) ∧
+    v.doExecName cx "verify_sig_compact" = some (Model.verifySig true v) ∧
+    v.doExecName cx "b32d" = some (Model.doBech32Dec v) ∧ v.doExecName cx "b32e" = some (Model.doBech32Enc .BECH32 v) ∧
+    v.doExecName cx "b58cd" = some (Model.doBase58ChkDec cx v) ∧ v.doExecName cx "b58ce" = some (Model.doBase58ChkEnc cx v) ∧
+    v.doExecName cx "jacobi_sym" = some (Model.doJacobiSymbol v) := by
   simp [Model.Value.doExecName]
+
+/-- non-vacuity: the table does contain rows whose printed inline name differs from the `DO(...)` name, and rows that had no
+    inline form before; `len` on the two bytes 0x1234 prints the number 2 -/
+example : (∃ e ∈ Model.tfTable, e.name = "bech32m-encode" ∧ e.inl = "b32me" ∧ e.exec = some "bech32menc") ∧
+    (∃ e ∈ Model.tfTable, e.name = "len" ∧ e.inl = "len" ∧ e.exec = some "len") ∧
+    (∃ e ∈ Model.tfTable, e.name = "verify-sig-compact" ∧ e.inl = "verify_sig_compact" ∧ e.exec = some "verify_sig_compact") := by
+  decide
+
+example : ∃ f, ({ type := .T_DATA, data := [0x12, 0x34] } : Model.Value).doExecName cryptoCtx "len" = some f ∧
+    (do let v' ← f; v'.println : Model.TM Unit) {} = .ok ((), { out := Model.intDecimal 2 ++ [10] }) :=
+  ⟨_, (inline_formerly_missing _ _).1, rfl⟩
 
 /-- `hex`: both forms compute the same characters; the inline value is a string -/
 theorem inline_hex (cx : Model.VCtx) (v : Model.Value) :
